@@ -964,6 +964,28 @@ func (it *stringIter) next(ex *Exec) tuple {
 	return tuple{true, int64(p), int64(r)}
 }
 
+// symStringIter ranges over a string with symbolic bytes by running the real
+// utf8.DecodeRuneInString on the remaining suffix at every step.
+type symStringIter struct {
+	s   *SymStr
+	pos int
+}
+
+func (it *symStringIter) next(ex *Exec) tuple {
+	if it.pos >= len(it.s.b) {
+		return tuple{false, int64(0), int64(0)}
+	}
+	pkg := ex.w.prog.ssa.ImportedPackage("unicode/utf8")
+	if pkg == nil || pkg.Func("DecodeRuneInString") == nil {
+		panic(unsupported("range over a symbolic string: unicode/utf8 not loaded"))
+	}
+	res := ex.callFunction(nil, pkg.Func("DecodeRuneInString"), []Value{mkStr(it.s.b[it.pos:])}).(tuple)
+	size := ex.concInt(res[1], intKind{64, true})
+	p := it.pos
+	it.pos += int(size)
+	return tuple{true, int64(p), res[0]}
+}
+
 func (ex *Exec) rangeIter(x Value) iterator {
 	switch x := x.(type) {
 	case *Map:
@@ -979,8 +1001,7 @@ func (ex *Exec) rangeIter(x Value) iterator {
 	case string:
 		return &stringIter{s: x}
 	case *SymStr:
-		// ASCII-only symbolic strings can be ranged bytewise if every byte is < 0x80
-		panic(unsupported("range over a string with symbolic bytes"))
+		return &symStringIter{s: x}
 	}
 	panic(engineError(fmt.Sprintf("range over %T", x)))
 }
